@@ -45,6 +45,7 @@ type playerSt struct {
 	Host   bstr `json:"host"`
 	Port   int  `json:"port"`
 	Server bstr `json:"server"`
+	Modern bool `json:"modern"`
 }
 type serverSt struct {
 	Name bstr `json:"name"`
@@ -54,7 +55,6 @@ type serverSt struct {
 type stateSt struct {
 	Players []playerSt `json:"players"`
 	Servers []serverSt `json:"servers"`
-	Modern  bool       `json:"modern"`
 }
 type reqCase struct {
 	St    stateSt         `json:"-"`
@@ -77,8 +77,9 @@ func (w *world) emit(kind, who, where, chanName string, data []byte) {
 		"where": tracefmt.Bytes([]byte(where)), "chan": chanName, "data": tracefmt.Bytes(data)})
 }
 
-func (w *world) protocol() proto.Protocol {
-	if w.st.Modern {
+// protocol of player i and of its server connection (each side of the 1.13 channel rename)
+func (w *world) protocol(i int) proto.Protocol {
+	if w.st.Players[i].Modern {
 		return version.Minecraft_1_20.Protocol
 	}
 	return version.Minecraft_1_12_2.Protocol
@@ -120,7 +121,7 @@ func (p *fakePlayer) RemoteAddr() net.Addr {
 func (p *fakePlayer) Disconnect(reason component.Component) {
 	p.w.emit("kick", p.Username(), "", "", []byte(text(reason)))
 }
-func (p *fakePlayer) Protocol() proto.Protocol { return p.w.protocol() }
+func (p *fakePlayer) Protocol() proto.Protocol { return p.w.protocol(p.i) }
 func (p *fakePlayer) SendMessage(msg component.Component, _ ...command.MessageOption) error {
 	p.w.emit("msg", p.Username(), "", "", []byte(text(msg)))
 	return nil
@@ -165,7 +166,7 @@ type fakeConn struct {
 }
 
 func (c *fakeConn) Name() string             { return c.w.st.Players[c.owner].Server.s() }
-func (c *fakeConn) Protocol() proto.Protocol { return c.w.protocol() }
+func (c *fakeConn) Protocol() proto.Protocol { return c.w.protocol(c.owner) }
 func (c *fakeConn) WritePacket(p proto.Packet) error {
 	who := c.w.st.Players[c.owner].Name.s()
 	if m, ok := p.(*plugin.Message); ok {
@@ -253,7 +254,7 @@ func TestResponder(t *testing.T) {
 		pr := providers{w}
 		r := bungeecord.NewMessageResponder(&fakePlayer{w, 0}, pr)
 		data := []byte(c.Data.s())
-		chName := bungeecord.Channel(w.protocol())
+		chName := bungeecord.Channel(w.protocol(0))
 		panicked, panicMsg := false, ""
 		func() {
 			defer func() {
